@@ -190,6 +190,9 @@ func (m *TransferShare) handlerTransferShares(
 	from, to common.Address,
 	sharesInt *big.Int,
 ) (*big.Int, *big.Int, error) {
+	if from == to {
+		return nil, nil, errors.New("from and to are the same address")
+	}
 	validator, err := m.stakingKeeper.GetValidator(ctx, valAddr)
 	if err != nil {
 		return nil, nil, err
